@@ -555,6 +555,9 @@ def run(ctx):  # noqa: F811
     r02_5_return(ctx)
     r02_6_recursive_abi_probe(ctx)
     from rules.lowering_sem import r04_9_whole_program
+    from rules import c10 as _c10
+
+    _c10.r10_1_assignment(ctx)  # a callee's parameter / output variable never shares an index with a caller's variable (shared with C10)
 
     r04_9_whole_program(ctx)  # every callsub reaches the routine it names and every routine returns to its caller (shared with C04)
     return (
